@@ -332,6 +332,45 @@ func init() {
 				}
 			}
 		}
+		// Part 3b: rejected and accepted rows of 10 ... 200 multi-byte characters (bytes, runes and display columns all
+		// differ), and OS refusals (a 300-byte name) below targets spelled with a trailing slash, "./" or "//"
+		for _, k := range []int{10, 20, 27, 30, 41, 50, 75, 79, 80, 81, 100, 200} {
+			for _, ch := range []string{"日", "й", "😀", "e\u0301"} {
+				if !c.Take() || c.Expired() {
+					continue
+				}
+				long := strings.Repeat(ch, k)
+				c.StateN(1)
+				c.Inc("long_multibyte_rows")
+				for _, doc := range []string{"- a\n" + long + "\n", "- a\n   - " + long + "\n  - b\n", long, "- " + long + "\n  - " + long + "\n", "- a\n  -" + long + "\n", "# " + long + "\n-" + long + "\n"} {
+					c12One(c, doc, c12Entries, jail)
+				}
+			}
+		}
+		for _, sp := range []string{"/", "/.", "//", "/./"} {
+			if !c.Take() {
+				continue
+			}
+			for _, doc := range []string{"- a\n  - " + strings.Repeat("n", 300) + "\n", "- " + strings.Repeat("n", 300) + "\n", "- a\n  - b\x00c\n"} {
+				j := fsx.NewJail("c12u")
+				c12Current.Store("mkdir below target spelled with " + sp + fmt.Sprintf(" %q", doc[:12]))
+				c12Tick.Add(1)
+				for _, massive := range []bool{false, true} {
+					pan := guardMaybeMassive(massive, func() {
+						opts := []gtree.Option{gtree.WithTargetDir(j.Target + sp)}
+						if massive {
+							opts = append(opts, extraOpts("massive", "")...)
+						}
+						gtree.MkdirFromMarkdown(strings.NewReader(doc), opts...)
+					})
+					c.Eval()
+					if pan != "" {
+						c.Violation("C12|panic-or-hang|mkdir-refused-by-the-os", fmt.Sprintf("target spelled %q, massive=%v, doc %q…: %s", "<target>"+sp, massive, doc[:12], pan), 1, nil)
+					}
+				}
+				j.Remove()
+			}
+		}
 		// Part 4: every subset of the ten options at every entry point (From-Markdown and From-Root), on eight small
 		// documents (valid, with a file, malformed, invalid name, heading, empty): whatever a combination means, the call
 		// returns. Calls with the massive option run on real goroutines: 60 s watchdog.
